@@ -363,3 +363,67 @@ def propagation(a, cb, need=1, start_blocks=None):
             return False, 'a path from the call reaches %s without passing the `?` at line %d (blocks %s)' % (
                 'return' if tgt in rets else 'the next iteration', a.line(t), p)
     return True, 'result passes %d `?` site(s) at line(s) %s on every path' % (len(ts), sorted({a.line(t) for t in ts}))
+
+
+# ---------------------------------------------------------------------------------------------------
+# branch conditions
+_NEG = {'Eq': 'Ne', 'Ne': 'Eq', 'Lt': 'Ge', 'Ge': 'Lt', 'Gt': 'Le', 'Le': 'Gt'}
+_SWAP = {'Eq': 'Eq', 'Ne': 'Ne', 'Lt': 'Gt', 'Gt': 'Lt', 'Le': 'Ge', 'Ge': 'Le'}
+_CMP_CALLS = {'core::cmp::PartialEq::eq': 'Eq', 'core::cmp::PartialEq::ne': 'Ne', 'core::cmp::PartialOrd::lt': 'Lt',
+              'core::cmp::PartialOrd::le': 'Le', 'core::cmp::PartialOrd::gt': 'Gt', 'core::cmp::PartialOrd::ge': 'Ge',
+              'core::cmp::impls::eq': 'Eq', 'core::cmp::impls::ne': 'Ne', 'core::cmp::impls::le': 'Le', 'core::cmp::impls::lt': 'Lt',
+              'core::cmp::impls::gt': 'Gt', 'core::cmp::impls::ge': 'Ge', 'core::array::equality::eq': 'Eq', 'core::array::equality::ne': 'Ne',
+              'alloc::vec::partial_eq::eq': 'Eq', 'alloc::vec::partial_eq::ne': 'Ne', 'core::str::traits::eq': 'Eq'}
+
+
+def as_comparison(e):
+    """(op, lhs, rhs) if expression e is a comparison (BinaryOp or PartialEq/PartialOrd call, through Not), else None."""
+    neg = False
+    while e[0] == 'un' and e[1] == 'Not':
+        neg = not neg
+        e = e[2]
+    op = None
+    if e[0] == 'bin' and e[1] in _NEG:
+        op, l, r = e[1], e[2], e[3]
+    elif e[0] == 'call':
+        c = strip_generics(e[1])
+        c = re.sub(r'^<.* as (.*)>::(\w+)$', r'\1::\2', c)
+        if c in _CMP_CALLS and len(e[2]) == 2:
+            op, l, r = _CMP_CALLS[c], e[2][0], e[2][1]
+    if op is None:
+        return None
+    if neg:
+        op = _NEG[op]
+    return op, l, r
+
+
+def cond_edges(a, b):
+    """For a SwitchInt block `b` on a boolean comparison: (op, lhs, rhs, true_edges, false_edges); None otherwise.
+    Short-circuit `&&`/`||` appear as separate switches and are handled by the caller via cut sets."""
+    t = a.blocks[b]['t']
+    if t['k'] != 'switch':
+        return None
+    e = a.flow.expr(t['d'])
+    c = as_comparison(e)
+    if c is None:
+        return None
+    f_edges = [(b, tgt) for v, tgt in t['ts'] if str(v) == '0']
+    t_edges = [(b, tgt) for v, tgt in t['ts'] if str(v) != '0']
+    if t['o'] in a.cfg.succ[b] and t['o'] not in [x[1] for x in f_edges + t_edges]:
+        t_edges.append((b, t['o']))
+    return c[0], c[1], c[2], t_edges, f_edges
+
+
+def edges_where(a, pred_holds):
+    """all CFG edges on which a comparison satisfying `pred_holds(op, lhs, rhs) -> True/False/None` is known to hold.
+    pred_holds gets the canonical comparison that is TRUE on the edge (both orientations are tried by the caller)."""
+    out = []
+    for b in sorted(a.cfg.reach0):
+        ce = cond_edges(a, b)
+        if not ce:
+            continue
+        op, l, r, te, fe = ce
+        for (oper, edges) in ((op, te), (_NEG[op], fe)):
+            if pred_holds(oper, l, r) or pred_holds(_SWAP[oper], r, l):
+                out.extend(edges)
+    return out
